@@ -36,11 +36,14 @@ DEFAULT_LIMITS = {
 
 
 def load_known():
-    p = os.path.join(VERIF, "known_findings.json")
-    if not os.path.exists(p):
-        return []
-    with open(p) as f:
-        return json.load(f)
+    out = []
+    paths = [os.path.join(VERIF, "known_findings.json")] + sorted(
+        glob.glob(os.path.join(VERIF, "known_findings.d", "*.json")))
+    for p in paths:
+        if os.path.exists(p):
+            with open(p) as f:
+                out.extend(json.load(f))
+    return out
 
 
 def match_known(known, prop, fn, label):
